@@ -58,6 +58,33 @@ func VH_C07_ReadPathTwoItems() {
 
 // Folder-upload item headers read from the transfer connection: the path built from their segments, joined under
 // the upload folder exactly as UploadFolderHandler does, stays inside that folder.
+// Longer item segments over the bytes the path code distinguishes ('.', '/') plus one ordinary byte: a separator
+// inside one segment ("/..", "../a", "a/../..") must not lead out of the upload folder either. Each string is its own
+// concrete case (363 strings of length <= 5, two segments of length <= 3).
+func VH_C07_FolderUploadItemPathSeparatorAlphabet() {
+	vUnroll(200)
+	seg := vBytesEach("segment", 5)
+	for i, b := range seg {
+		vAssume(b == '.' || b == '/' || b == 'a')
+		seg[i] = byte(vConcrete(int(b)))
+	}
+	data := append([]byte{0, 0, byte(len(seg))}, seg...)
+	nseg := 1
+	if len(seg) <= 3 && vBool("second_segment") {
+		seg2 := vBytesEach("segment2", 3)
+		for i, b := range seg2 {
+			vAssume(b == '.' || b == '/' || b == 'a')
+			seg2[i] = byte(vConcrete(int(b)))
+		}
+		data = append(data, 0, 0, byte(len(seg2)))
+		data = append(data, seg2...)
+		nseg = 2
+	}
+	fu := folderUpload{PathItemCount: [2]byte{0, byte(nseg)}, FileNamePath: data}
+	p := filepath.Join("/r/up", fu.FormattedPath())
+	vAssert("folder_item_with_separators_stays_in_upload_folder", vWithin("/r/up", p))
+}
+
 func VH_C07_FolderUploadItemPath() {
 	vUnroll(200)
 	nseg := 1 + vChoice("extra_segment", 2)
